@@ -5,7 +5,7 @@ import ast
 from typing import Dict, List, Optional, Set
 
 from ..collect import callee_is, run_paths
-from ..common import calls_in, construct, where
+from ..common import defs_of, calls_in, construct, where
 from ..flow import Value, show, subterms
 from ..loader import AnalysisError, ClassInfo, FuncInfo, Program, walk_shallow
 from ..report import Report
@@ -20,6 +20,45 @@ def _headers_folds(p: Program) -> bool:
         if isinstance(n, ast.JoinedStr) and any(isinstance(v, ast.Constant) and "," in str(v.value) for v in n.values):
             return True
     return False
+
+
+def _slot(v):
+    """Where a value handed to the rebuilt response lives between the capture callback and from_app: a variable the callback
+    rebinds (`nonlocal x`) -> ('cell', x, None); one element of a container the callback fills in place (`box[1] = ...`,
+    `state["headers"] = ...`, `state.headers = ...`) -> ('cell', box, key)."""
+    if v[0] == "cell":
+        return ("cell", v[1], None)
+    if v[0] == "unpack" and v[1][0] == "cell":
+        return ("cell", v[1][1], v[2])
+    if v[0] == "sub" and v[1][0] == "cell" and v[2][0] == "const":
+        return ("cell", v[1][1], v[2][1])
+    if v[0] == "attr" and v[1][0] == "cell":
+        return ("cell", v[1][1], "." + v[2])
+    return None
+
+
+def _slot_text(slot) -> str:
+    return slot[1] if slot[2] is None else (f"{slot[1]}{slot[2]}" if isinstance(slot[2], str) and slot[2].startswith(".") else f"{slot[1]}[{slot[2]!r}]")
+
+
+def _slot_stores(cb, slot):
+    """(statement, stored expression) for every store of the callback into the slot"""
+    out = []
+    for n in walk_shallow(cb.node):
+        if not isinstance(n, (ast.Assign, ast.AnnAssign)) or getattr(n, "value", None) is None:
+            continue
+        for t in (n.targets if isinstance(n, ast.Assign) else [n.target]):
+            if slot[2] is None and isinstance(t, ast.Name) and t.id == slot[1]:
+                out.append((n, n.value))
+            elif slot[2] is not None and isinstance(t, ast.Subscript) and isinstance(t.value, ast.Name) and t.value.id == slot[1] and isinstance(t.slice, ast.Constant) and t.slice.value == slot[2]:
+                out.append((n, n.value))
+            elif isinstance(slot[2], str) and slot[2].startswith(".") and isinstance(t, ast.Attribute) and isinstance(t.value, ast.Name) and t.value.id == slot[1] and "." + t.attr == slot[2]:
+                out.append((n, n.value))
+            elif isinstance(t, (ast.Tuple, ast.List)) and isinstance(n.value, (ast.Tuple, ast.List)) and len(t.elts) == len(n.value.elts):
+                for te, ve in zip(t.elts, n.value.elts):
+                    if slot[2] is None and isinstance(te, ast.Name) and te.id == slot[1]:
+                        out.append((n, ve))
+    return out
 
 
 def run(p: Program, rep: Report, tier: str) -> None:
@@ -63,18 +102,18 @@ def run(p: Program, rep: Report, tier: str) -> None:
             rep.undecide("R20.1", f"{side}: NextResponse(...) construction not found")
             continue
         hv = ctor_args[2]
-        hname = hv[1] if hv[0] == "cell" else None
-        if hname is None:
+        hslot = _slot(hv)
+        if hslot is None:
             rep.undecide("R20.1", f"{side}: headers argument {show(hv)} is not a variable captured by the callback")
         else:
-            stores = [n for n in walk_shallow(cb.node) if isinstance(n, ast.Assign) and isinstance(n.targets[0], ast.Name) and n.targets[0].id == hname]
+            hname = _slot_text(hslot)
+            stores = _slot_stores(cb, hslot)
             if not stores:
                 rep.violation("R20.1", construct(cb, text=f"{hname} never assigned"), where(cb), f"{side}: the capture callback never stores the inner application's headers")
-            for st in stores:
-                val = st.value
+            for st, val in stores:
                 r = p.resolve_call(cb, val) if isinstance(val, ast.Call) else None
                 if isinstance(r, ClassInfo) and r.fq == "baize.datastructures:Headers" and folds:
-                    rep.violation("R20.1", construct(cb, text=f"{hname} = Headers(...)"), where(cb, st),
+                    rep.violation("R20.1", construct(cb, text="inner header list stored as Headers(...)"), where(cb, st),
                                   f"{side}: the inner application's header list is captured in Headers(...), which folds repeated names with ', ': "
                                   "two Set-Cookie lines of the inner response become one invalid line after the middleware")
                 elif isinstance(val, (ast.List, ast.ListComp)) or (isinstance(val, ast.Call) and isinstance(val.func, ast.Name) and val.func.id in ("list", "tuple")):
@@ -99,12 +138,13 @@ def run(p: Program, rep: Report, tier: str) -> None:
                 else:
                     rep.violation("R20.2", construct(fa, text=f"app({', '.join(show(x)[:30] for x in a)})"), where(fa), f"{side}: the inner application is not called with (request, ..., capture callback)")
         # ---------------- R20.4: status relay
-        sname = ctor_args[1][1] if ctor_args[1][0] == "cell" else None
-        if sname is None:
+        sslot = _slot(ctor_args[1])
+        if sslot is None:
             rep.violation("R20.4", construct(fa, text=f"status {show(ctor_args[1])}"), where(fa), f"{side}: the rebuilt response does not use the captured status")
         else:
-            st_stores = [n for n in walk_shallow(cb.node) if isinstance(n, ast.Assign) and isinstance(n.targets[0], ast.Name) and n.targets[0].id == sname]
-            txt = [ast.unparse(n.value).replace('"', "'") for n in st_stores]
+            sname = _slot_text(sslot)
+            st_stores = _slot_stores(cb, sslot)
+            txt = [ast.unparse(v_).replace('"', "'") for _, v_ in st_stores]
             want = ["int(status.split(' ')[0])"] if side == "wsgi" else ["message['status']"]
             if txt == want:
                 rep.ok("R20.4", f"{side}: status captured as {txt[0]}")
@@ -248,8 +288,10 @@ def run(p: Program, rep: Report, tier: str) -> None:
         hname = mw.params[0] if mw.params else "handler"
         hcalls = [c for c in calls_in(inner) if isinstance(c.func, ast.Name) and c.func.id == hname]
         # roles: the request object built from the gateway arguments, the nested continuation
-        req_names = {t.id for n in walk_shallow(inner.node) if isinstance(n, ast.Assign) and isinstance(n.value, ast.Call) and ast.unparse(n.value.func) == "NextRequest" for t in n.targets if isinstance(t, ast.Name)}
-        if len(hcalls) == 1 and len(hcalls[0].args) == 2 and isinstance(hcalls[0].args[0], ast.Name) and hcalls[0].args[0].id in req_names \
+        def _is_request(e_: ast.expr) -> bool:
+            ds = defs_of(inner, e_)
+            return bool(ds) and all(isinstance(d_, ast.Call) and ast.unparse(d_.func) == "NextRequest" for d_ in ds)
+        if len(hcalls) == 1 and len(hcalls[0].args) == 2 and not hcalls[0].keywords and _is_request(hcalls[0].args[0]) \
                 and isinstance(hcalls[0].args[1], ast.Name) and nc is not None and hcalls[0].args[1].id == nc.name:
             rep.ok("R20.2", f"{side}: the middleware calls handler(request, next_call) exactly once")
         else:
